@@ -27,6 +27,16 @@ Explains(e, f) ==
      \/ e.op = "to_ndt" /\ NdtExplains(f, e.off, W(e), e.r)
      \/ e.op = "to_datetime" /\ DtExplains(f, W(e), e.r)
      \/ e.op = "to_dtz" /\ DtzExplains(f, e.o, W(e), e.r)
+     \* resolution in a zone whose offset CHANGES (chrono::Local under a DST rule), from a complete wall clock plus timestamp plus offset
+     \* field (the event carries the fields itself; the register is not involved).  Obligation O1 only: whatever comes back contradicts
+     \* none of the three, and three fields that contradict each other resolve to nothing
+     \/ e.op = "to_dtz_zone" /\
+          LET Unix(x) == (x.n - 719163) * 86400 + x.secs                                     \* (dates of this century: fits TLC's integers)
+              inst == Unix(e.w) - e.off                                                       \* the instant the wall clock denotes under the offset field
+              agree == FromInt(inst) = J(e.ts) IN
+          /\ (Has(e.r, "ok") => /\ e.r.ok.off = e.off /\ FromInt(Unix(e.r.ok.u)) = J(e.ts)
+                                /\ Unix(e.r.ok.u) + e.off = Unix(e.w))
+          /\ (~agree => Has(e.r, "err"))
 After(e, f) == IF e.op = "set" THEN SetNext(f, e.f, J(e.v), e.r, e.hd)
                ELSE IF e.op = "setmany" THEN SetSeqNext(f, e.sets, 1) ELSE f
 Unknown(e) == e.op = "set" /\ SetUnknown(e.f, J(e.v), e.r)
